@@ -77,6 +77,8 @@ RAW_SQL = [
     'CREATE DATABASE "a/b"', 'USE "../x"', 'CREATE DATABASE "."', 'CREATE DATABASE "%s"' % ("L" * 300), 'USE "%s"' % ("m" * 300),
     'CREATE TABLE "%s" (a INT)' % ("t" * 300), 'CREATE TABLE tc ("%s" INT)' % ("c" * 300), "INSERT INTO t (zz) VALUES (1)",
     "INSERT INTO t (i, i) VALUES (1, 2)", "UPDATE t SET zz = 1", "CREATE TABLE dd (a INT, a INT)",
+    "SELECT i FROM t LIMIT 9223372036854775807 OFFSET 1", "SELECT * FROM t LIMIT 9223372036854775806 OFFSET 2",
+    "SELECT i FROM t ORDER BY i LIMIT 9223372036854775807 OFFSET 3", "SELECT i FROM t OFFSET 9223372036854775807",
     "INSERT INTO sys_pages VALUES ('x', 5)", "UPDATE sys_pages SET file_offset = 12345", "DELETE FROM sys_schema", "SELECT * FROM sys_pages", "SELECT * FROM sys_schema",
 ]
 
